@@ -124,6 +124,18 @@ def fold_derive_key_inputs(ctx, m):
             x = x._parent
         return x
     tcall = top(call)
+    if len(loops) != 1 or tcall not in body:
+        # the same two statements one or more blocks further in (guard clauses written as if / else: the rest of the handler sits in the else arm)
+        for blk_owner in ast.walk(fn):
+            for fld_ in ('body', 'orelse', 'finalbody'):
+                blk = getattr(blk_owner, fld_, None)
+                if not (isinstance(blk, list) and blk and isinstance(blk[0], ast.stmt)) or blk is fn.body:
+                    continue
+                lp_ = [s_ for s_ in blk if isinstance(s_, ast.For) and U(s_.iter).endswith('.unique_identifiers')]
+                tc_ = [s_ for s_ in blk if any(x is call for x in ast.walk(s_))]
+                if len(lp_) == 1 and len(tc_) == 1:
+                    body, loops, tcall = blk, lp_, tc_[0]
+                    lists = [s_ for s_ in ast.walk(fn) if isinstance(s_, ast.Assign) and len(s_.targets) == 1 and isinstance(s_.targets[0], ast.Name) and isinstance(s_.value, (ast.List, ast.Call)) and U(s_.value) in ('[]', 'list()')]
     if len(loops) != 1 or tcall not in body or body.index(loops[0]) >= body.index(tcall):
         ctx.need(False, 'unrecognised construct: _process_derive_key no longer collects its base objects in one loop over payload.unique_identifiers before the derive_key call')
     apps = [c.func.value.id for c in ast.walk(loops[0]) if isinstance(c, ast.Call) and isinstance(c.func, ast.Attribute) and c.func.attr == 'append' and isinstance(c.func.value, ast.Name)]
@@ -164,7 +176,7 @@ def fold_derive_key_inputs(ctx, m):
                     if isinstance(loops[0].target, ast.Name):
                         env[loops[0].target.id] = objs[-1]
                     # names bound before the fragment (the attribute dictionary of the template) are length / algorithm carriers only
-                    for s_ in body[:body.index(loops[0])]:
+                    for s_ in sorted([x_ for x_ in ast.walk(fn) if isinstance(x_, ast.Assign) and getattr(x_, 'lineno', 0) < loops[0].lineno], key=lambda x_: x_.lineno):
                         for t_ in (s_.targets if isinstance(s_, ast.Assign) else []):
                             if isinstance(t_, ast.Name) and t_.id not in env:
                                 if 'attr' in t_.id:
